@@ -25,7 +25,9 @@ class Node:
 
 
 class CFG:
-    def __init__(self, fn: ast.FunctionDef | ast.AsyncFunctionDef | None = None, body: list[ast.stmt] | None = None):
+    def __init__(self, fn: ast.FunctionDef | ast.AsyncFunctionDef | None = None, body: list[ast.stmt] | None = None,
+                 noreturn: set[str] | None = None):
+        self.noreturn = noreturn or set()
         self.nodes: list[Node] = []
         self.entry = self._new("entry")
         self.exit = self._new("exit")  # normal return / fall off the end
@@ -169,6 +171,13 @@ class CFG:
             if not irrefutable:
                 outs.append((s, "nomatch"))
             return s, outs
+        if isinstance(st, (ast.Return, ast.Expr)) and self.noreturn and isinstance(st.value, ast.Call):
+            f = st.value.func
+            nm = f.attr if isinstance(f, ast.Attribute) else (f.id if isinstance(f, ast.Name) else "")
+            if nm in self.noreturn:  # `return self._fail(...)`: the callee always raises
+                n = self._new("stmt", st)
+                self._edge(n, ctx.exc_target(self))
+                return n, []
         if isinstance(st, ast.Return):
             n = self._new("stmt", st)
             self._edge(n, ctx.ret_target(self))
